@@ -1611,3 +1611,50 @@ Proof.
   cbn [run_operations]. destruct (do_op fx st (prep_data t)) as [st' o]. cbn [snd].
   destruct o as [t1|e]; [|reflexivity]. destruct (wfb (post_proc_data t1)); reflexivity.
 Qed.
+
+(* ------------------------------------------------------------ repeated map keys *)
+
+(* the converse of map_find_spec: the first entry with the key is the answer,
+   whatever follows it (later entries with the same key are dead) *)
+Lemma map_find_first m key pre row post :
+  Forall (fun row' => row_key m row' <> key) pre -> row_key m row = key ->
+  map_find m key (pre ++ row :: post) = Some (skipn m row).
+Proof.
+  intros Hpre Hrow. induction Hpre as [|r pre Hr Hpre IH]; cbn [app map_find].
+  - fold (row_key m row). rewrite Hrow. rewrite (proj2 (list_str_eqb_spec key key) eq_refl). reflexivity.
+  - destruct (list_str_eqb (map pval_str (firstn m r)) key) eqn:E; [|exact IH].
+    apply list_str_eqb_spec in E. unfold row_key in Hr. contradiction.
+Qed.
+
+(* KeyMap keeps a de-duplicated lookup table (col_map): the entries of map_list
+   without those whose key was already listed *)
+Fixpoint dedup_keys (m : nat) (seen : list (list str)) (ml : list (list pval)) : list (list pval) :=
+  match ml with
+  | [] => []
+  | row :: r =>
+      if existsb (list_str_eqb (row_key m row)) seen then dedup_keys m seen r
+      else row :: dedup_keys m (row_key m row :: seen) r
+  end.
+
+(* for EVERY key the de-duplicated table answers like first-wins on map_list:
+   repeating a key changes neither its own answer nor that of any other key *)
+Lemma map_find_dedup m key : forall ml seen,
+  (forall s, In s seen -> s <> key) ->
+  map_find m key (dedup_keys m seen ml) = map_find m key ml.
+Proof.
+  induction ml as [|row ml IH]; intros seen Hseen; cbn [dedup_keys map_find]; [reflexivity|].
+  fold (row_key m row).
+  destruct (existsb (list_str_eqb (row_key m row)) seen) eqn:Ex.
+  - apply existsb_exists in Ex as [s [Hs Es]]. apply list_str_eqb_spec in Es.
+    destruct (list_str_eqb (row_key m row) key) eqn:Ek.
+    + apply list_str_eqb_spec in Ek. exfalso. apply (Hseen s Hs). congruence.
+    + apply IH. exact Hseen.
+  - cbn [map_find]. fold (row_key m row). destruct (list_str_eqb (row_key m row) key) eqn:Ek; [reflexivity|].
+    apply IH. intros s [<-|Hs]; [|apply Hseen; exact Hs].
+    intro E. rewrite E in Ek. rewrite (proj2 (list_str_eqb_spec key key) eq_refl) in Ek. discriminate.
+Qed.
+
+(* 1 and "1" are the same key *)
+Lemma row_key_numeric_text z rest :
+  row_key 1 (PNum z :: rest) = row_key 1 (PStr (str_of_Z z) :: rest).
+Proof. reflexivity. Qed.
